@@ -52,7 +52,10 @@ def run(report: Report, tier, seed):
         "flattenBlocks is under a pyvc contract (requires wf_blocks: what sortBlocks returns); L-flat (per-block lowering => trace equivalence of graph and list) is a meta-lemma",
         "NormalizeBlocks, sortBlocks, deferred-expression splice: covered here only by bounded stand-ins")
     run_fragcheck(report, "O1.frag", tier=tier)
-    run_contracts(report, [("contracts.c01_flatten", "FlattenBlocks", "O1.26")])
+    run_contracts(report, [("contracts.c01_flatten", "FlattenBlocks", "O1.26"),
+                           ("contracts.c01_substring", "SubstringConst", "O1.14a"), ("contracts.c01_substring", "ExtractConst", "O1.14b"),
+                           ("contracts.c01_substring", "SuffixConst", "O1.14c")])
+    from . import substring_native
     from . import ir_native
     nmax = 3 if tier == "quick" else 4
     fc, ff = ir_native.check_flatten(nmax)
@@ -66,6 +69,12 @@ def run(report: Report, tier, seed):
     def search(fn, obs):
         if "flattenBlocks" in fn:
             return {"input": {"block_list": ff[0]}, "what": ff[0]["what"]} if ff else None
+        if "substring" in fn:
+            for o in obs:
+                hit = substring_native.from_model(fn, o.model if isinstance(o.model, dict) else None)
+                if hit:
+                    return hit
+            return None
         return fails[0] if fails else None
 
     report.settle_undecided(search)
